@@ -40,6 +40,10 @@ inductive Val
   | none
   deriving DecidableEq, Repr
 
+def assoc {κ β : Type} [BEq κ] : List (κ × β) → κ → Option β
+  | [], _ => none
+  | (k, v) :: rest, x => if k == x then some v else assoc rest x
+
 /-- the branches of `transform_value_by_representation` (plus `raw` for the representation `""`) -/
 inductive Rep
   | raw            -- `""`: the value is printed as it is
@@ -59,10 +63,6 @@ inductive Piece
   | units (found invalid : Nat) | invalidUnits
   | boolean | player | color | quoted
   deriving DecidableEq, Repr
-
-def assoc {κ β : Type} [BEq κ] : List (κ × β) → κ → Option β
-  | [], _ => none
-  | (k, v) :: rest, x => if k == x then some v else assoc rest x
 
 /-- one dataset module (`datasets/effects.py` or `datasets/conditions.py`) after `_initialise_version_dependencies`,
 together with the dispatch dictionaries of `attr_presentation.py`; attribute and representation names are interned -/
@@ -91,6 +91,11 @@ structure Obj where
   aaSrc : AASrc                           -- effects only; conditions carry `.none`
   attrs : List (Nat × Val)
   deriving DecidableEq, Repr
+
+/-- an instance as the library builds it: every attribute of the class is present; the ones not given hold −1 -/
+def mkObj (classAttrs : List Nat) (ty : Int) (src : AASrc) (given : List (Nat × Val)) : Obj :=
+  let base := (classAttrs.filter fun a => (assoc given a).isNone).map fun a => (a, Val.int (-1))
+  { type := ty, aaSrc := src, attrs := given.reverse ++ base }
 
 /-- `Effect._armour_attack_flag` -/
 def Obj.aaFlag (o : Obj) : Bool := o.aaSrc != .none
